@@ -202,7 +202,9 @@ func CleanScopes(scopes []string) []string {
 	case 1:
 		scope := scopes[0]
 		i := strings.LastIndex(scope, ":")
-		if i == -1 {
+		if i == -1 || i == strings.Index(scope, ":") {
+			// no resource type or no resource name: not recognizable,
+			// keep as is like the slow path does
 			return []string{scope}
 		}
 		actionList := strings.Split(scope[i+1:], ",")
